@@ -363,6 +363,14 @@ func init() {
 		Instances: func(tier string) []explore.Params {
 			var out []explore.Params
 			ops := []string{"Start", "Client", "Kill", "Protocol", "ReattachConfig"}
+			if tier == "fine" {
+				for _, b := range []string{"netrpc", "grpc", "badline", "re-grpc"} {
+					for _, pr := range [][2]string{{"Start", "Start"}, {"Start", "Client"}, {"Client", "Client"}, {"Start", "Kill"}, {"Client", "Kill"}, {"Kill", "Kill"}, {"Client", "ReattachConfig"}, {"Start", "Protocol"}} {
+						out = append(out, explore.Params{"beh": b, "g1": pr[0], "g2": pr[1], "fine": "1"})
+					}
+				}
+				return out
+			}
 			behs := []string{"netrpc", "grpc", "badline", "badproto", "re-netrpc", "tre-grpc"}
 			if tier == "thorough" {
 				behs = append(behs, "re-grpc", "tre-netrpc")
